@@ -119,6 +119,17 @@ loop:
 			break loop
 		default:
 			end = "connErr"
+			// the failure is not a one-off: whoever asks again (another channel, the same consumer, Close's
+			// logout) gets an error again, in time — the transport stays dead
+			for again := 0; again < 2; again++ {
+				ctx2, cancel2 := context.WithTimeout(context.Background(), 1500*time.Millisecond)
+				_, err2 := ch.NextPackage(ctx2, true)
+				cancel2()
+				if err2 == nil || errors.Is(err2, context.DeadlineExceeded) {
+					end = "connErr-then-blocked"
+					break
+				}
+			}
 			break loop
 		}
 		select {
